@@ -80,6 +80,8 @@ def coq_type(t):
     if t[0] == 'tuple':
         if len(t[1]) == 0:
             return 'unit'
+        if len(t[1]) == 1:
+            return coq_type(t[1][0])
         return '(' + ' * '.join(coq_type(x) for x in t[1]) + ')%type'
     if t[0] == 'list':
         return '(list ' + coq_type(t[1]) + ')'
@@ -240,6 +242,8 @@ class FnTranslator:
         self.spec = spec
         self.registry = registry  # name -> FnSpec for callable translated functions
         self.tmp = 0
+        self.draws = []            # [(coq name, type)] oracle parameters in source order
+        self.loop_draws = None     # inside a `for _ in range(n)` loop: draws of one iteration
         self.ensure = None
         self.effect_used = False
         self.nzvars = set()
@@ -390,6 +394,15 @@ class FnTranslator:
             if sp in self.spec.self_attrs:
                 return Expr('self_' + sp, env.get('@self_' + sp, self.spec.self_attrs[sp]))
             raise TransError('attribute self.%s is not declared in the spec (line %d)' % (sp, node.lineno))
+        # Enum member of a nested Enum class: Cls.EnumName.MEMBER -> its string value
+        if isinstance(node.value, ast.Attribute) and getattr(self.spec, 'cls_nodes', None):
+            for c in self.spec.cls_nodes:
+                for b in c.body:
+                    if isinstance(b, ast.ClassDef) and b.name == node.value.attr:
+                        for asg in b.body:
+                            if isinstance(asg, ast.Assign) and isinstance(asg.targets[0], ast.Name) \
+                                    and asg.targets[0].id == node.attr and isinstance(asg.value, ast.Constant):
+                                return self.e_Constant(asg.value, env)
         if node.attr == 'shape':
             v = self.expr(node.value, env)
             if v.ty == ARR:
@@ -439,9 +452,17 @@ class FnTranslator:
             return Expr('(match %s with Some _ => true | None => false end)' % e.code, B, e.binds)
         raise TransError('truthiness of type %s' % (e.ty,))
 
+    def unopt(self, e):
+        """arithmetic / comparison on an Optional value: None raises TypeError in Python"""
+        if isinstance(e.ty, tuple) and e.ty[0] == 'opt' and e.ty[1] in (Z, Q):
+            t = self.fresh('o')
+            self.effect_used = True
+            return Expr(t, e.ty[1], e.binds + [(t, '(match %s with Some o_ => Ok o_ | None => Raise TypeError end)' % e.code)])
+        return e
+
     def e_BinOp(self, node, env):
-        a = self.expr(node.left, env)
-        b = self.expr(node.right, env)
+        a = self.unopt(self.expr(node.left, env))
+        b = self.unopt(self.expr(node.right, env))
         op = node.op
         binds = a.binds + b.binds
         # tuple + tail  /  tuple + tuple(tail)
@@ -529,6 +550,8 @@ class FnTranslator:
             r = "(let '(%s) := %s in let '(%s) := %s in (%s))" % (', '.join(na), a.code, ', '.join(nb), b.code,
                                                                ' && '.join(parts))
             return Expr(r if isinstance(op, ast.Eq) else '(negb %s)' % r, B)
+        if not isinstance(op, (ast.Eq, ast.NotEq)):
+            a, b = self.unopt(a), self.unopt(b)
         if a.ty in (Z, Q) and b.ty in (Z, Q):
             if a.ty == Z and b.ty == Z:
                 f = {ast.Eq: 'Z.eqb %s %s', ast.NotEq: 'negb (Z.eqb %s %s)', ast.Lt: 'Z.ltb %s %s',
@@ -581,6 +604,29 @@ class FnTranslator:
             prev = cur
         code = parts[0] if len(parts) == 1 else '(' + ' && '.join(parts) + ')'
         return Expr(code, B, binds)
+
+    def e_Dict(self, node, env):
+        if not all(isinstance(k, ast.Constant) and isinstance(k.value, str) for k in node.keys):
+            raise TransError('dict with non-literal keys at line %d' % node.lineno)
+        keys = [k.value for k in node.keys]
+        es = [self.expr(v, env) for v in node.values]
+        # a declared key type (NAME_TYPES) fixes the representation, e.g. Z vs Q
+        out = []
+        for kname, e in zip(keys, es):
+            want = NAME_TYPES_P.get(kname)
+            if want is not None and want != e.ty:
+                try:
+                    e = self.coerce(e, want)
+                except TransError:
+                    pass
+            out.append(e)
+        if getattr(self.spec, 'ret_keys', None) not in (None, keys):
+            raise TransError('the method returns dicts with different key sets at line %d' % node.lineno)
+        self.spec.ret_keys = keys
+        binds = sum([e.binds for e in out], [])
+        if len(out) == 1:
+            return Expr(out[0].code, T(out[0].ty), binds)
+        return Expr('(' + ', '.join(e.code for e in out) + ')', T(*[e.ty for e in out]), binds)
 
     def e_ListComp(self, node, env):
         if len(node.generators) != 1 or node.generators[0].ifs or not isinstance(node.generators[0].target, ast.Name):
@@ -696,6 +742,18 @@ class FnTranslator:
                             and len(b.body) >= 1 and isinstance(b.body[-1], ast.Return) \
                             and isinstance(b.body[-1].value, ast.Dict):
                         return self.dict_lookup(b.body[-1].value, node.slice, env, node.lineno)
+        if isinstance(node.value, ast.Name) and node.value.id == 'params' and getattr(self.spec, 'sampler', False) \
+                and isinstance(node.slice, ast.Attribute) and self.self_path(node.slice, env) is not None:
+            key = 'tgt_' + self.self_path(node.slice, env)       # params[self.<key attribute>]
+            if key in env:
+                return Expr(vname(key), env[key])
+            raise TransError('sampler reads params[self.%s], which the spec does not declare' % key[4:])
+        if isinstance(node.value, ast.Name) and node.value.id == 'params' and getattr(self.spec, 'sampler', False) \
+                and isinstance(node.slice, ast.Constant) and isinstance(node.slice.value, str):
+            key = 'tgt_' + node.slice.value
+            if key in env:
+                return Expr(vname(key), env[key])
+            raise TransError('sampler reads params[%r], which the spec does not declare' % node.slice.value)
         if isinstance(node.value, ast.Name) and node.value.id in ('params', 'kwargs') \
                 and self.spec.kwrest is not None and isinstance(node.slice, ast.Constant) \
                 and isinstance(node.slice.value, str):
@@ -780,6 +838,9 @@ class FnTranslator:
         else:
             raise TransError('unsupported call %s at line %d' % (ast.unparse(f), node.lineno))
         args = node.args
+        # --- random draws become oracle parameters (source order)
+        if fname in ('random.random', 'random.randint', 'random.uniform', 'random.choice'):
+            return self.draw_call(fname, node, env)
         # --- casts / identities
         if fname in ('cast', 'typing.cast'):
             return self.expr(args[1], env)
@@ -902,7 +963,7 @@ class FnTranslator:
             if isinstance(a.ty, tuple) and a.ty[0] == 'tuple':
                 return self.num_lit(len(a.ty[1]))
             if isinstance(a.ty, tuple) and a.ty[0] == 'list':
-                return Expr('(Z.of_nat (length %s))' % a.code, Z, a.binds)
+                return Expr('(Z.of_nat (List.length %s))' % a.code, Z, a.binds)
         if fname in ('all', 'any') and len(args) == 1 and isinstance(args[0], ast.GeneratorExp):
             return self.quantifier(fname, args[0], env)
         # --- decorator pass-through: func(keypoint, *args, **kwargs)
@@ -911,6 +972,9 @@ class FnTranslator:
             argcodes = [vname(p) for p, _ in target.params]
             return self.emit_call(target, argcodes)
         # --- methods of the same class: self.m(...)
+        if fname.startswith('self.__') and self.spec.cls and (self.spec.cls + '_' + fname[5:].lstrip('_')) in self.registry:
+            target = self.registry[self.spec.cls + '_' + fname[5:].lstrip('_')]
+            return self.call_translated(target, node, env)
         if fname.startswith('self.') and self.spec.cls and (self.spec.cls + '_' + fname[5:]) in self.registry:
             target = self.registry[self.spec.cls + '_' + fname[5:]]
             return self.call_translated(target, node, env)
@@ -920,6 +984,62 @@ class FnTranslator:
             target = self.registry[short]
             return self.call_translated(target, node, env)
         raise TransError('call to untranslated function %s at line %d' % (fname, node.lineno))
+
+    def new_draw(self, ty):
+        self.tmp += 0
+        n = len(self.draws) + (len(self.loop_draws) if self.loop_draws is not None else 0) + 1
+        if self.loop_draws is not None:
+            name = 'it_d%d' % (len(self.loop_draws) + 1)
+            self.loop_draws.append((name, ty))
+        else:
+            name = 'd_%d' % (len(self.draws) + 1)
+            self.draws.append((name, ty))
+        return name
+
+    def draw_call(self, fname, node, env):
+        if not self.monadic:
+            raise TransError('random draw in a pure context')
+        self.effect_used = True
+        t = self.fresh('dr')
+        if fname == 'random.random':
+            d = self.new_draw(Q)
+            return Expr(t, Q, [(t, 'draw_unit %s' % d)])
+        if fname == 'random.randint':
+            a, b = [self.expr(x, env) for x in node.args]
+            if a.ty != Z or b.ty != Z:
+                raise TransError('random.randint on non-integers at line %d' % node.lineno)
+            d = self.new_draw(Z)
+            return Expr(t, Z, a.binds + b.binds + [(t, 'draw_int %s %s %s' % (a.code, b.code, d))])
+        if fname == 'random.uniform':
+            args = node.args
+            if len(args) == 1 and isinstance(args[0], ast.Starred):
+                pair = self.expr(args[0].value, env)
+                if pair.ty != T(Q, Q) and pair.ty != T(Z, Z):
+                    raise TransError('random.uniform(*x) with x of type %s' % (pair.ty,))
+                na, nb = self.fresh('p'), self.fresh('p')
+                d = self.new_draw(Q)
+                a2 = self.coerce(Expr(na, pair.ty[1][0]), Q).code
+                b2 = self.coerce(Expr(nb, pair.ty[1][1]), Q).code
+                return Expr(t, Q, pair.binds + [(t, "(let '(%s, %s) := %s in draw_uniform %s %s %s)"
+                                               % (na, nb, pair.code, a2, b2, d))])
+            a, b = [self.coerce(self.expr(x, env), Q) for x in args]
+            d = self.new_draw(Q)
+            return Expr(t, Q, a.binds + b.binds + [(t, 'draw_uniform %s %s %s' % (a.code, b.code, d))])
+        if fname == 'random.choice':
+            seq = self.expr(node.args[0], env)
+            d = self.new_draw(Z)
+            i = self.fresh('ix')
+            if isinstance(seq.ty, tuple) and seq.ty[0] == 'list':
+                return Expr(t, seq.ty[1], seq.binds + [(i, 'draw_index (Z.of_nat (List.length %s)) %s' % (seq.code, d)),
+                                                        (t, 'nth_res %s %s' % (seq.code, i))])
+            if isinstance(seq.ty, tuple) and seq.ty[0] == 'tuple' and len(set(seq.ty[1])) == 1:
+                names = self.tuple_components(seq)
+                lst = '[' + '; '.join(names) + ']'
+                return Expr(t, seq.ty[1][0], seq.binds + [(i, 'draw_index %d %s' % (len(names), d)),
+                                                           (t, "(let '(%s) := %s in nth_res %s %s)"
+                                                            % (', '.join(names), seq.code, lst, i))])
+            raise TransError('random.choice over %s at line %d' % (seq.ty, node.lineno))
+        raise TransError('draw %s' % fname)
 
     def minmax(self, fname, es):
         if len(es) < 2:
@@ -1015,11 +1135,17 @@ class FnTranslator:
             if missing:
                 raise TransError('call of method %s needs self attributes %s' % (target.name, missing))
             argcodes = ['self_' + a for a in sorted(target.self_attrs)] + list(argcodes)
-        call = '(%s %s)' % (target.coq_name, ' '.join(argcodes)) if argcodes else target.coq_name
         if self.ensure is not None:
             self.ensure(target)
+        call = '(%s %s)' % (target.coq_name, ' '.join(argcodes)) if argcodes else target.coq_name
         if target.ret is None:
             raise TransError('call to %s before its return type is known' % target.name)
+        if getattr(target, 'draws', None):
+            if self.loop_draws is not None:
+                raise TransError('call of a drawing function inside a range loop')
+            for dn, dt in target.draws:
+                argcodes = list(argcodes) + [self.new_draw(dt)]
+            call = '(%s %s)' % (target.coq_name, ' '.join(argcodes))
         if target.raises:
             t = self.fresh('r')
             return Expr(t, target.ret, [(t, call)])
@@ -1086,6 +1212,9 @@ class FnTranslator:
             return cont(env)
         if isinstance(st, ast.AnnAssign) and st.value is None:
             return cont(env)
+        if isinstance(st, ast.Return) and getattr(self.spec, 'sampler', False) and isinstance(st.value, ast.Name) \
+                and st.value.id == 'params' and '@updated' in env:
+            return self.ret(Expr('v_updated_', env['@updated']))
         if isinstance(st, ast.Return):
             if st.value is None:
                 raise TransError('bare return')
@@ -1109,6 +1238,9 @@ class FnTranslator:
             targets = st.targets if isinstance(st, ast.Assign) else [st.target]
             if len(targets) != 1:
                 raise TransError('chained assignment')
+            if getattr(self.spec, 'sampler', False) and isinstance(st.value, ast.Call) \
+                    and isinstance(st.value.func, ast.Attribute) and st.value.func.attr == 'update_params':
+                return cont(env)
             if isinstance(targets[0], ast.Name) and isinstance(st.value, ast.Call) \
                     and isinstance(st.value.func, ast.Name) \
                     and st.value.func.id in ('_maybe_process_by_channel', '_maybe_process_in_chunks'):
@@ -1160,6 +1292,15 @@ class FnTranslator:
             e = self.coerce(e, env[lst][1])
             return self.with_binds(e.binds, "(let %s := (%s ++ [%s]) in\n %s)"
                                    % (vname(lst), vname(lst), e.code, cont(env)))
+        if getattr(self.spec, 'sampler', False) and isinstance(st, ast.Expr) and isinstance(st.value, ast.Call) \
+                and isinstance(st.value.func, ast.Attribute) and st.value.func.attr == 'update' \
+                and isinstance(st.value.func.value, ast.Name) and st.value.func.value.id == 'params' \
+                and st.value.args and isinstance(st.value.args[0], ast.Dict):
+            # params.update({...}); return params   ==>  the method's contribution is that dict
+            e = self.expr(st.value.args[0], env)
+            env2 = dict(env)
+            env2['@updated'] = e.ty
+            return self.with_binds(e.binds, "(let v_updated_ := %s in\n %s)" % (e.code, cont(env2)))
         if isinstance(st, ast.Expr) and isinstance(st.value, ast.Call):
             e = self.expr(st.value, env)
             return self.with_binds(e.binds, cont(env))
@@ -1247,9 +1388,13 @@ class FnTranslator:
                 types[v] = t if v not in types else self.unify(types[v], t)
             return 'PROBE'
         saved = self.tmp, self.ret_ty, self.effect_used
+        nd, nld = len(self.draws), (len(self.loop_draws) if self.loop_draws is not None else None)
         self.block(st.body, env_t, probe)
         self.block(st.orelse, env_e, probe)
         self.tmp, self.effect_used = saved[0], saved[2]
+        del self.draws[nd:]
+        if nld is not None:
+            del self.loop_draws[nld:]
 
         def fin(env2):
             comps = [self.coerce(Expr(vname(v), env2[v]), types[v]).code for v in merged]
@@ -1258,6 +1403,7 @@ class FnTranslator:
         pure_ok = False
         if self.monadic:
             saved2 = (self.tmp, self.effect_used, set(self.nzvars))
+            nd2, nld2 = len(self.draws), (len(self.loop_draws) if self.loop_draws is not None else None)
             try:
                 self.monadic = False
                 a = self.block(st.body, env_t, fin)
@@ -1265,6 +1411,9 @@ class FnTranslator:
                 pure_ok = True
             except TransError:
                 self.tmp, self.effect_used, self.nzvars = saved2
+                del self.draws[nd2:]
+                if nld2 is not None:
+                    del self.loop_draws[nld2:]
             finally:
                 self.monadic = True
         if not pure_ok:
@@ -1284,6 +1433,8 @@ class FnTranslator:
         if st.orelse:
             raise TransError('for-else')
         it = st.iter
+        if isinstance(it, ast.Call) and isinstance(it.func, ast.Name) and it.func.id == 'range' and len(it.args) == 1:
+            return self.range_loop(st, rest, env, k)
         # zip(...) of fixed-length sequences, or a fixed-length tuple: unroll
         seqs = None
         if isinstance(it, ast.Call) and isinstance(it.func, ast.Name) and it.func.id == 'zip':
@@ -1324,6 +1475,73 @@ class FnTranslator:
         for s, names in zip(reversed(seqs), reversed(compnames)):
             body = "(let '(%s) := %s in\n %s)" % (', '.join(names), s.code, body)
         return self.with_binds(binds, body)
+
+    def range_loop(self, st, rest, env, k):
+        """for _ in range(n): BODY  where BODY may draw: the draws of each iteration are one element of an
+        oracle list parameter; the loop folds over that list and checks that it has n elements"""
+        if not self.monadic:
+            raise TransError('range loop in pure mode')
+        n = self.expr(st.iter.args[0], env)
+        if n.ty != Z:
+            raise TransError('range over non-integer at line %d' % st.lineno)
+        state = sorted(v for v in may_assign(st.body) if v in env and not isinstance(env[v], Expr))
+        if not state:
+            raise TransError('range loop without carried state at line %d' % st.lineno)
+        saved_loop, saved_k = self.loop_draws, getattr(self, 'loop_k', None)
+        types = {v: env[v] for v in state}
+        env_in = dict(env)
+        if isinstance(st.target, ast.Name) and st.target.id != '_' and not st.target.id.startswith('_'):
+            raise TransError('range loop variable is used at line %d' % st.lineno)
+
+        def probe(env2):
+            for v in state:
+                if env2[v] != types[v]:
+                    if isinstance(types[v], tuple) and types[v][0] == 'list' and types[v][1] is None:
+                        types[v] = env2[v]
+                    else:
+                        types[v] = self.unify(types[v], env2[v])
+            return 'PROBE'
+        saved_tmp = self.tmp
+        self.loop_draws = []
+        self.loop_k = probe
+        self.block(st.body, env_in, probe)
+        self.tmp = saved_tmp
+        for v in state:
+            env_in[v] = types[v]
+
+        def fin(env2):
+            comps = [self.coerce(Expr(vname(v), env2[v]), types[v]).code for v in state]
+            return 'Ok ' + (comps[0] if len(comps) == 1 else '(' + ', '.join(comps) + ')')
+        self.loop_draws = []
+        self.loop_k = fin
+        body = self.block(st.body, env_in, fin)
+        iter_draws = self.loop_draws
+        self.loop_draws, self.loop_k = saved_loop, saved_k
+        if not iter_draws:
+            raise TransError('range loop without draws at line %d (unsupported)' % st.lineno)
+        lname = 'it_%d' % (len(self.draws) + 1)
+        ity = T(*[t for _, t in iter_draws]) if len(iter_draws) > 1 else iter_draws[0][1]
+        self.draws.append((lname, L(ity)))
+        ipat = iter_draws[0][0] if len(iter_draws) == 1 else "'(" + ', '.join(nm for nm, _ in iter_draws) + ')'
+        pat = vname(state[0]) if len(state) == 1 else "'(" + ', '.join(vname(v) for v in state) + ')'
+        sty = coq_type(types[state[0]]) if len(state) == 1 else coq_type(T(*[types[v] for v in state]))
+        init = []
+        for v in state:
+            if isinstance(env[v], tuple) and env[v][0] == 'list' and env[v][1] is None:
+                init.append('(@nil %s)' % coq_type(types[v][1]))
+            else:
+                init.append(self.coerce(Expr(vname(v), env[v]), types[v]).code)
+        init = init[0] if len(init) == 1 else '(' + ', '.join(init) + ')'
+        env3 = dict(env)
+        for v in state:
+            env3[v] = types[v]
+        fn = "(fun (st_ : %s) (it_ : %s) => let %s := st_ in let %s := it_ in\n %s)" % (
+            sty, coq_type(ity), pat, ipat, body)
+        self.effect_used = True
+        code = ("(if negb (Z.eqb (Z.of_nat (List.length %s)) (Z.max 0 %s)) then Raise BadDraw else\n"
+                " (do %s <- fold_res %s %s %s;\n %s))" % (lname, n.code, pat.lstrip("'"), fn, lname, init,
+                                                         self.block(rest, env3, k)))
+        return self.with_binds(n.binds, code)
 
     def fold_stmt(self, st, lst, rest, env, k):
         if isinstance(st.target, (ast.Tuple, ast.List)):
@@ -1367,9 +1585,11 @@ class FnTranslator:
                         types[v] = self.unify(types[v], env2[v])
             return 'PROBE'
         saved_k, saved_tmp = getattr(self, 'loop_k', None), self.tmp
+        nd3 = len(self.draws)
         self.loop_k = probe
         self.block(st.body, env_in, probe)
         self.tmp = saved_tmp
+        del self.draws[nd3:]
         for v in state:
             env_in[v] = types[v]
 
@@ -1464,6 +1684,9 @@ class FnTranslator:
         code = self.block(body, env, endk)
         code = prelude + code + ')' * prelude.count('(let ')
         params = ' '.join('(%s : %s)' % (vname(p), coq_type(t)) for p, t in self.spec.params)
+        if self.draws:
+            params += ' ' + ' '.join('(%s : %s)' % (n_, coq_type(t_)) for n_, t_ in self.draws)
+        self.spec.draws = list(self.draws)
         selfp = ' '.join('(self_%s : %s)' % (a, coq_type(t)) for a, t in sorted(self.spec.self_attrs.items()))
         if self.ret_ty is None:
             raise TransError('no return type inferred')
@@ -1579,6 +1802,23 @@ def class_method_specs(m, tree, cspec, errors):
         sp.never_supplied = [f for f in formals if f not in keys and f not in dflt]
         sp.param_keys = keys
         sp.cls_nodes = nodes
+        specs.append(sp)
+    # samplers: get_params / get_params_dependent_on_targets / update_params / private helpers
+    for meth, mparams in cspec.get('samplers', {}).items():
+        fn = find(meth) or find('_%s%s' % (name, meth))
+        if fn is None:
+            errors.append({'function': name + '.' + meth, 'file': m['file'], 'error': 'sampler not found'})
+            continue
+        cn = cspec.get('coq_prefix', name) + '_' + meth.lstrip('_')
+        sp = FnSpec(meth, [(pn, pt) for pn, pt in mparams], cls=cspec.get('coq_prefix', name), self_attrs=self_attrs,
+                    coq_name=cn)
+        sp.node = fn
+        sp.decos = []
+        sp.sampler = True
+        sp.cls_nodes = nodes
+        sp.has_kwargs = fn.args.kwarg is not None
+        sp.kwrest = None
+        sp.skip_sig_check = True
         specs.append(sp)
     # inherited DualTransform.apply_to_mask: self.apply(img, **{k: INTER_NEAREST if k == "interpolation" else v ...})
     methods = cspec.get('methods', APPLY_METHODS)
@@ -1818,6 +2058,9 @@ def translate_all(repo, modules, out_dir):
                 done.append({'name': spec.coq_name, 'py_name': spec.name, 'line': spec.node.lineno,
                              'raises': spec.raises, 'ret': coq_type(spec.ret), 'ret_ty': spec.ret,
                              'params': [[pn, pt] for pn, pt in spec.params],
+                             'draws': [[dn, dt] for dn, dt in getattr(spec, 'draws', [])],
+                             'ret_keys': getattr(spec, 'ret_keys', None),
+                             'self_attrs': [[a, t] for a, t in sorted(spec.self_attrs.items())],
                              'wrapper_of': spec.wrapper_of})
         text = '\n'.join(lines) + '\n'
         path = os.path.join(out_dir, m['coq_module'] + '.v')
